@@ -18,6 +18,17 @@ package main
 //     with main.lookupHostFn, one listener per route; raw clients (a genuine
 //     ClientHello for SNI) and greeting upstreams.
 //
+//   - the routing table is not built once: the same table text is parsed one to
+//     three times before serving and rebuilt tables (same text, or one more
+//     instance of a service) are installed between requests, as the registry
+//     watcher does after every change; services have one or two instances
+//     with the same options and routes may share their allow=/deny= string.
+//   - in a fraction of the runs the handlers are tasks (statement-level
+//     interleaving of fabio's decision code): HTTP handler goroutines are
+//     adopted, the tcp.Server accept loops are tasks so that their
+//     per-connection goroutines are child tasks, and several clients from
+//     admitted and refused addresses work on ONE route at the same time.
+//
 // The oracle is a reference evaluation with net/netip written from the
 // property statement and docs/content/feature/access-control.md. "No upstream
 // is contacted" is read from the simulated network: every dial attempt fabio
@@ -26,6 +37,7 @@ package main
 
 import (
 	"bufio"
+	"bytes"
 	"context"
 	"crypto/sha1"
 	"crypto/tls"
@@ -46,9 +58,11 @@ import (
 
 	"github.com/fabiolb/fabio/config"
 	"github.com/fabiolb/fabio/internal/zzverif/simcore"
+	"github.com/fabiolb/fabio/internal/zzverif/simhook"
 	"github.com/fabiolb/fabio/internal/zzverif/simnet"
 	"github.com/fabiolb/fabio/metrics"
 	"github.com/fabiolb/fabio/proxy/tcp"
+	"github.com/fabiolb/fabio/route"
 )
 
 func init() {
@@ -284,6 +298,8 @@ type c12Route struct {
 	Proto  string   `json:"proto"` // http | tcp | sni | dyn
 	Src    string   `json:"src"`
 	Key    string   `json:"upstream"`
+	More   []string `json:"further_instances,omitempty"`   // more instances of the same service: same options, own upstream
+	Shares int      `json:"same_rules_as_route,omitempty"` // 1+index of the earlier route whose allow=/deny= string this one repeats
 	Listen string   `json:"listener,omitempty"`
 	Allow  []string `json:"allow,omitempty"` // the items between the commas
 	Deny   []string `json:"deny,omitempty"`
@@ -304,19 +320,51 @@ type c12Expect struct {
 	Verdict string `json:"reference"`
 	Why     string `json:"why,omitempty"`
 	Attempt string `json:"credentials,omitempty"` // how the generator derived the Authorization header (not used by the oracle)
-	key     string
+	route   int
 	proto   string
 	// for the reach counters only
 	authVerdict string
 	ordered     bool // derived from a pair that logged in earlier on the same client (strictly earlier in time)
 }
 
+// c12Rebuild: while the clients are at work the table is built again from the route
+// commands and installed (route.NewTable + route.SetTable, what the registry watcher
+// does after every change): the same commands, or with one more instance of a service.
+type c12Rebuild struct {
+	After int    `json:"after_handler_entries"`  // offered to the driver once this many requests/connections have reached a handler
+	Add   int    `json:"adds_instance_to_route"` // -1: same commands
+	Key   string `json:"instance,omitempty"`
+}
+
 type c12Scenario struct {
-	Routes  []c12Route  `json:"routes"`
+	Routes []c12Route `json:"routes"`
+	// Builds: how often the table text is parsed (and installed) before the listeners
+	// serve; the table that serves is the last one.
+	Builds   int          `json:"table_builds_before_serving"`
+	Rebuilds []c12Rebuild `json:"table_rebuilds_while_serving,omitempty"`
+	// Tasked: the handler goroutines are tasks, so requests and connections of different
+	// peers interleave at every statement of the code named by Focus.
+	Tasked  bool        `json:"handlers_interleaved_statement_by_statement,omitempty"`
+	Focus   string      `json:"interleaved_code,omitempty"` // decision: route.Target methods and package auth; all: route, proxy, proxy/tcp, auth
+	Stick   int         `json:"stick,omitempty"`
 	Clients []h2Client  `json:"http_clients,omitempty"`
 	Conns   []c12Conn   `json:"tcp_clients,omitempty"`
 	Expect  []c12Expect `json:"reference"`
 }
+
+// keysAt lists the upstreams of route j in table version v (0 = the commands the run starts with).
+func (sc *c12Scenario) keysAt(j, v int) []string {
+	rt := &sc.Routes[j]
+	ks := append([]string{rt.Key}, rt.More...)
+	for k := 0; k < v && k < len(sc.Rebuilds); k++ {
+		if sc.Rebuilds[k].Add == j {
+			ks = append(ks, sc.Rebuilds[k].Key)
+		}
+	}
+	return ks
+}
+
+func (sc *c12Scenario) keys(j int) []string { return sc.keysAt(j, len(sc.Rebuilds)) }
 
 var c12V4Blocks = []string{"10.0.0.0/8", "192.168.1.0/24", "192.0.2.7", "172.16.0.0/12", "198.51.100.128/25", "203.0.113.4/30", "10.1.2.3/8", "100.64.0.0/10", "192.0.2.255/32", "203.0.113.9/31", "0.0.0.0/0"}
 var c12V6Blocks = []string{"fe80::/10", "2001:db8::/32", "2001:db8::1", "2001:db8:1:2::/64", "fe80::1234", "fd00::/8", "::1", "fe80::/64", "::ffff:192.0.2.0/120", "::ffff:10.9.8.7", "2001:db8:ffff::/127", "2001:0DB8:0:0::/48", "FE80::/10", "::/0"}
@@ -400,6 +448,18 @@ func c12Admitted(g *simcore.Tape, rt *c12Route) netip.Addr {
 	return a
 }
 
+// c12Refused prefers an address the well-formed part of the rules rejects.
+func c12Refused(g *simcore.Tape, rt *c12Route) netip.Addr {
+	var a netip.Addr
+	for i := 0; i < 6; i++ {
+		a = c12Addr(g, rt)
+		if rt.ref.rejects(a) {
+			break
+		}
+	}
+	return a
+}
+
 // c12RandBlock writes a random IPv4 or IPv6 block with an arbitrary prefix length
 // (the base keeps its host bits, which CIDR notation permits).
 func c12RandBlock(g *simcore.Tape) string {
@@ -413,7 +473,15 @@ func c12RandBlock(g *simcore.Tape) string {
 	return netip.PrefixFrom(a, g.Range(0, 32)).String()
 }
 
-func c12GenRules(g *simcore.Tape, rt *c12Route) {
+// c12GenRules draws the allow=/deny= option of rt; one route in four repeats the option
+// string of an earlier route of the run (services are usually registered with the same tags).
+func c12GenRules(g *simcore.Tape, rt *c12Route, earlier []c12Route) {
+	if len(earlier) > 0 && g.Chance(25) {
+		k := g.Intn(len(earlier))
+		rt.Allow, rt.Deny, rt.Shares = earlier[k].Allow, earlier[k].Deny, k+1
+		rt.ref = c12NewRef(rt.Allow, rt.Deny)
+		return
+	}
 	items := func() []string {
 		n := g.Range(1, 4)
 		var out []string
@@ -641,12 +709,20 @@ func c12Gen(g *simcore.Tape, thorough bool) *c12Scenario {
 	if thorough {
 		maxCl = 5
 	}
+	// statement-level runs: the handlers of several peers interleave inside fabio's decision code
+	if sc.Tasked = g.Chance(30); sc.Tasked {
+		sc.Focus = simcore.Pick(g, []string{"decision", "all"})
+		sc.Stick = simcore.Pick(g, []int{1, 3, 8})
+	}
 	var httpRoutes, tcpRoutes []int
 	if mode != 1 {
 		n := g.Range(1, 3)
 		for j := 0; j < n; j++ {
 			rt := c12Route{Proto: "http", Src: fmt.Sprintf("/p%d", j), Key: fmt.Sprintf("up%d.sim:80", j)}
-			c12GenRules(g, &rt)
+			c12GenRules(g, &rt, sc.Routes)
+			if g.Chance(20) {
+				rt.More = []string{fmt.Sprintf("up%db.sim:80", j)}
+			}
 			rt.Auth = simcore.Pick(g, []string{"", "", "basic1", "basic2", "nosuch", "basic1", "", "Basic1"})
 			httpRoutes = append(httpRoutes, len(sc.Routes))
 			sc.Routes = append(sc.Routes, rt)
@@ -660,7 +736,10 @@ func c12Gen(g *simcore.Tape, thorough bool) *c12Scenario {
 			if rt.Proto == "sni" {
 				rt.Src = fmt.Sprintf("sni%d.example.com/", j)
 			}
-			c12GenRules(g, &rt)
+			c12GenRules(g, &rt, sc.Routes)
+			if g.Chance(20) {
+				rt.More = []string{fmt.Sprintf("tup%db.sim:9000", j)}
+			}
 			tcpRoutes = append(tcpRoutes, len(sc.Routes))
 			sc.Routes = append(sc.Routes, rt)
 		}
@@ -673,8 +752,17 @@ func c12Gen(g *simcore.Tape, thorough bool) *c12Scenario {
 			maxSess = 10
 		}
 		nc := g.Range(1, maxCl)
+		hot := -1
+		if sc.Tasked {
+			// several clients, alternately from addresses the rules admit and refuse, at work on one route
+			nc = g.Range(2, maxCl+1)
+			hot = c12Hot(g, sc, httpRoutes)
+		}
 		for c := 0; c < nc; c++ {
 			focus := simcore.Pick(g, httpRoutes)
+			if hot >= 0 && !g.Chance(15) {
+				focus = hot
+			}
 			// a credential session: a longer ordered history of attempts at the focus route's scheme
 			// instance from an address the rules do not refuse, on one or several connections
 			session := false
@@ -682,19 +770,25 @@ func c12Gen(g *simcore.Tape, thorough bool) *c12Scenario {
 				session = g.Chance(60)
 			}
 			var peer netip.Addr
-			if session || g.Chance(70) {
+			switch {
+			case hot >= 0 && !session && c%2 == 1:
+				peer = c12Refused(g, &sc.Routes[focus])
+			case session || g.Chance(70):
 				peer = c12Admitted(g, &sc.Routes[focus])
-			} else {
+			default:
 				peer = c12Addr(g, &sc.Routes[focus])
 			}
 			cl := h2Client{Addr: c12HostPort(peer, 5000+100*c)}
 			n := g.Range(1, 3)
+			if hot >= 0 {
+				n = g.Range(2, 4) // what one peer's check leaves behind meets the next request of the other
+			}
 			if session {
 				n = g.Range(2, maxSess)
 			}
 			for k := 0; k < n; k++ {
 				ri := focus
-				if g.Chance(25) {
+				if g.Chance(25) && (hot < 0 || g.Chance(40)) {
 					ri = simcore.Pick(g, httpRoutes)
 				}
 				rt := &sc.Routes[ri]
@@ -760,7 +854,7 @@ func c12Gen(g *simcore.Tape, thorough bool) *c12Scenario {
 				v1, w1 := rt.ref.access(peer, lines)
 				v2, w2 := c12Auth(rt.Auth, av)
 				v, w := c12Combine(v1, w1, v2, w2)
-				ex := c12Expect{ID: rq.ID, Verdict: v, Why: w, key: rt.Key, proto: "http"}
+				ex := c12Expect{ID: rq.ID, Verdict: v, Why: w, route: ri, proto: "http"}
 				if rt.Auth != "" {
 					ex.Attempt = attempt
 					ex.authVerdict, ex.ordered = v2, ordered && defined
@@ -772,32 +866,93 @@ func c12Gen(g *simcore.Tape, thorough bool) *c12Scenario {
 	}
 	if len(tcpRoutes) > 0 {
 		nc := g.Range(1, maxCl+1)
+		hot := -1
+		if sc.Tasked {
+			nc = g.Range(2, maxCl+3)
+			hot = c12Hot(g, sc, tcpRoutes)
+		}
+		var peers []netip.Addr
 		for c := 0; c < nc; c++ {
 			ri := simcore.Pick(g, tcpRoutes)
+			if hot >= 0 && !g.Chance(15) {
+				ri = hot
+			}
 			rt := &sc.Routes[ri]
 			var peer netip.Addr
-			if g.Chance(50) {
+			again := 25
+			if hot >= 0 {
+				again = 45
+			}
+			switch {
+			case c > 0 && g.Chance(again):
+				// a peer that has connected before connects again (from another port)
+				k := g.Intn(c)
+				peer, ri = peers[k], sc.Conns[k].Route
+				rt = &sc.Routes[ri]
+			case hot >= 0 && c%2 == 1:
+				peer = c12Refused(g, rt)
+			case g.Chance(50):
 				peer = c12Admitted(g, rt)
-			} else {
+			default:
 				peer = c12Addr(g, rt)
 			}
+			peers = append(peers, peer)
 			cn := c12Conn{ID: fmt.Sprintf("t%d", c), Addr: c12HostPort(peer, 6000+100*c), Route: ri, Early: g.Chance(10)}
 			cn.Chunks = c07GenChunks(g, 300)
 			sc.Conns = append(sc.Conns, cn)
 			v, w := rt.ref.access(peer, nil)
-			sc.Expect = append(sc.Expect, c12Expect{ID: cn.ID, Verdict: v, Why: w, key: rt.Key, proto: rt.Proto})
+			sc.Expect = append(sc.Expect, c12Expect{ID: cn.ID, Verdict: v, Why: w, route: ri, proto: rt.Proto})
 		}
+	}
+	// the life of the routing table. The table that serves has been built from the same text once
+	// before in the simplest case (fabio rebuilds it after every registry change; scenarios are
+	// shrunk in a process that has already built them, so the shrunk scenario keeps a rebuild of
+	// its own), is the first one ever built, or the third.
+	sc.Builds = simcore.Pick(g, []int{2, 1, 3})
+	for k, n := 0, g.Intn(3); k < n; k++ {
+		rb := c12Rebuild{After: g.Range(0, len(sc.Expect)), Add: -1}
+		if g.Chance(40) {
+			rb.Add = g.Intn(len(sc.Routes))
+			if sc.Routes[rb.Add].Proto == "http" {
+				rb.Key = fmt.Sprintf("up%dr%d.sim:80", rb.Add, k)
+			} else {
+				rb.Key = fmt.Sprintf("tup%dr%d.sim:9000", rb.Add, k)
+			}
+		}
+		sc.Rebuilds = append(sc.Rebuilds, rb)
 	}
 	return sc
 }
 
-func c12Table(sc *c12Scenario) string {
+// c12Hot picks the route the clients of a statement-level run meet on: one with rules if there is one.
+func c12Hot(g *simcore.Tape, sc *c12Scenario, idx []int) int {
+	var ruled []int
+	for _, i := range idx {
+		if sc.Routes[i].ref.any() {
+			ruled = append(ruled, i)
+		}
+	}
+	if len(ruled) > 0 {
+		return simcore.Pick(g, ruled)
+	}
+	return simcore.Pick(g, idx)
+}
+
+// multi: some route has more than one instance in some version of the table.
+func (sc *c12Scenario) multi() bool {
+	for j := range sc.Routes {
+		if len(sc.keys(j)) > 1 {
+			return true
+		}
+	}
+	return false
+}
+
+// c12Table writes the route commands of table version v: every instance of a service
+// carries the service's options.
+func c12Table(sc *c12Scenario, v int) string {
 	var b strings.Builder
 	for j, rt := range sc.Routes {
-		dst := "http://" + rt.Key + "/"
-		if rt.Proto != "http" {
-			dst = "tcp://" + rt.Key
-		}
 		var opts []string
 		if len(rt.Allow) > 0 {
 			opts = append(opts, "allow="+strings.Join(rt.Allow, ","))
@@ -808,13 +963,30 @@ func c12Table(sc *c12Scenario) string {
 		if rt.Auth != "" {
 			opts = append(opts, "auth="+rt.Auth)
 		}
-		fmt.Fprintf(&b, "route add svc%d %s %s", j, rt.Src, dst)
-		if len(opts) > 0 {
-			fmt.Fprintf(&b, " opts \"%s\"", strings.Join(opts, " "))
+		for _, key := range sc.keysAt(j, v) {
+			dst := "http://" + key + "/"
+			if rt.Proto != "http" {
+				dst = "tcp://" + key
+			}
+			fmt.Fprintf(&b, "route add svc%d %s %s", j, rt.Src, dst)
+			if len(opts) > 0 {
+				fmt.Fprintf(&b, " opts \"%s\"", strings.Join(opts, " "))
+			}
+			b.WriteString("\n")
 		}
-		b.WriteString("\n")
 	}
 	return b.String()
+}
+
+// c12Install builds a table from the route commands and makes it the active one.
+func c12Install(r *simcore.Run, text string) bool {
+	t, err := route.NewTable(bytes.NewBufferString(text))
+	if err != nil {
+		r.Trouble("scenario table does not parse: %v\n%s", err, text)
+		return false
+	}
+	route.SetTable(t)
+	return true
 }
 
 // ---------------------------------------------------------------- environment
@@ -833,6 +1005,7 @@ type c12TCPResult struct {
 
 type c12State struct {
 	mu       sync.Mutex
+	entered  int // requests and connections that have reached a handler
 	inflight map[string]int
 	dials    []c12Dial
 	byAddr   map[string]string // peer address as fabio sees it -> tcp client id
@@ -841,6 +1014,7 @@ type c12State struct {
 
 func (st *c12State) enter(id string) {
 	st.mu.Lock()
+	st.entered++
 	st.inflight[id]++
 	st.mu.Unlock()
 }
@@ -919,6 +1093,9 @@ func runC12(r *simcore.Run) {
 	}
 	cfg := &config.Config{}
 	cfg.Proxy.Strategy = "rnd"
+	if sc.multi() {
+		cfg.Proxy.Strategy = "rr" // a choice between instances must be replayable
+	}
 	cfg.Proxy.Matcher = "prefix"
 	cfg.Proxy.NoRouteStatus = 404
 	cfg.GlobCacheSize = 100
@@ -927,9 +1104,28 @@ func runC12(r *simcore.Run) {
 		"basic1": {Name: "basic1", Type: "basic", Basic: config.BasicAuth{File: fa, Realm: "sim one"}},
 		"basic2": {Name: "basic2", Type: "basic", Basic: config.BasicAuth{File: fb, Realm: "sim two"}},
 	}
-	e := h2NewEnv(r, cfg, c12Table(sc))
+	e := h2NewEnv(r, cfg, c12Table(sc, 0))
 	defer e.finish()
 	os.RemoveAll(dir)
+	// the table text is parsed and installed Builds times before anything is served
+	for i := 1; i < sc.Builds; i++ {
+		if !c12Install(r, c12Table(sc, 0)) {
+			return
+		}
+	}
+	r.Probe(fmt.Sprintf("table_builds_before_serving_%d", sc.Builds))
+	keyRoute := map[string]int{}
+	for j := range sc.Routes {
+		for _, k := range sc.keys(j) {
+			keyRoute[k] = j
+		}
+		if len(sc.keysAt(j, 0)) > 1 {
+			r.Probe("service_with_two_instances")
+		}
+		if sc.Routes[j].Shares > 0 {
+			r.Probe("routes_sharing_an_option_string")
+		}
+	}
 
 	st := &c12State{inflight: map[string]int{}, byAddr: map[string]string{}, tcp: map[string]*c12TCPResult{}}
 	// every connection attempt fabio makes, with what is inside a fabio handler at that instant
@@ -945,14 +1141,57 @@ func runC12(r *simcore.Run) {
 		st.mu.Unlock()
 		return inner(ctx, network, addr, timeout, keepAlive)
 	}
+	if sc.Tasked {
+		if sc.Focus == "decision" {
+			e.d.Sim.Activate("route:*Target.", "auth")
+		} else {
+			// everything on the way of a request or connection except the code that net/http or ReverseProxy call
+			// back under their own locks, and the accept loop (the harness closes the servers from outside a task)
+			e.d.Sim.Activate("route", "auth", "proxy", "-proxy:*responseWriter", "-proxy:newWSHandler", "-proxy:newHTTPProxy", "-proxy:httpProxyErrorHandler",
+				"tcp", "-tcp:*Server.")
+		}
+		e.d.Stick = sc.Stick
+		r.Probe("tasked_" + sc.Focus)
+	}
+	var amu sync.Mutex
+	perConn := map[string]int{}
 	e.wrap = func(h http.Handler) http.Handler {
 		return http.HandlerFunc(func(w http.ResponseWriter, req *http.Request) {
 			id := req.Header.Get("X-Sim-Id")
+			if sc.Tasked {
+				amu.Lock()
+				perConn[req.RemoteAddr]++
+				name := fmt.Sprintf("h/%s/%d", req.RemoteAddr, perConn[req.RemoteAddr])
+				amu.Unlock()
+				defer simhook.Adopt(name)()
+			}
 			st.enter(id)
 			defer st.leave(id)
 			h.ServeHTTP(w, req)
 		})
 	}
+	// rebuilt tables are installed while the clients are at work; when is the driver's choice
+	rebuilt := 0
+	e.d.AddSource(func() []simcore.Event {
+		if rebuilt >= len(sc.Rebuilds) {
+			return nil
+		}
+		st.mu.Lock()
+		n := st.entered
+		st.mu.Unlock()
+		if n < sc.Rebuilds[rebuilt].After {
+			return nil
+		}
+		return []simcore.Event{{Key: "rebuild", Fire: func() {
+			rebuilt++
+			r.Tracef("table rebuilt (%d) after %d handler entries", rebuilt, n)
+			r.Probe("table_rebuilt_while_serving")
+			if sc.Rebuilds[rebuilt-1].Add >= 0 {
+				r.Probe("table_rebuilt_with_one_more_instance")
+			}
+			c12Install(r, c12Table(sc, rebuilt))
+		}}}
+	})
 	e.serve(nil)
 
 	// upstreams and TCP listeners
@@ -966,10 +1205,14 @@ func runC12(r *simcore.Run) {
 	for i := range sc.Routes {
 		rt := &sc.Routes[i]
 		if rt.Proto == "http" {
-			e.upstream(rt.Key, simnet.ListenOpts{}, nil)
+			for _, k := range sc.keys(i) {
+				e.upstream(k, simnet.ListenOpts{}, nil)
+			}
 			continue
 		}
-		c12TCPUpstream(e, rt.Key)
+		for _, k := range sc.keys(i) {
+			c12TCPUpstream(e, k)
+		}
 		var h tcp.Handler
 		switch rt.Proto {
 		case "tcp":
@@ -985,15 +1228,21 @@ func runC12(r *simcore.Run) {
 			return
 		}
 		srv := &tcp.Server{Handler: tcp.HandlerFunc(func(in net.Conn) error {
+			from := in.RemoteAddr().String() // fabio code with scheduling points: not under the harness lock
 			st.mu.Lock()
-			id := st.byAddr[in.RemoteAddr().String()]
+			id := st.byAddr[from]
 			st.mu.Unlock()
 			st.enter(id)
 			defer st.leave(id)
 			return h.ServeTCP(in)
 		})}
 		servers = append(servers, srv)
-		go srv.Serve(ln)
+		if sc.Tasked {
+			// the accept loop is a task, so the goroutine fabio starts per connection is a child task
+			e.d.Sim.Spawn(fmt.Sprintf("tsrv%d", i), func() { srv.Serve(ln) })
+		} else {
+			go srv.Serve(ln)
+		}
 	}
 
 	for i := range sc.Clients {
@@ -1002,7 +1251,11 @@ func runC12(r *simcore.Run) {
 	for i := range sc.Conns {
 		c12TCPClient(e, st, sc, &sc.Conns[i])
 	}
-	finished := e.run(200000, 30*time.Minute)
+	maxSteps := 200000
+	if sc.Tasked {
+		maxSteps = 600000
+	}
+	finished := e.run(maxSteps, 30*time.Minute)
 	if !finished {
 		// a connection that must be refused but is neither served nor closed leaves its client waiting
 		stuck := false
@@ -1022,11 +1275,11 @@ func runC12(r *simcore.Run) {
 	e.d.Run(3000, func() bool { return !e.net.Pending() })
 
 	// ---- oracle ----
-	nonReject := map[string]int{} // upstream key -> requests/connections the reference does not refuse
+	nonReject := map[int]int{} // route -> requests/connections the reference does not refuse
 	for i := range sc.Expect {
 		ex := &sc.Expect[i]
 		if ex.Verdict != c12Reject {
-			nonReject[ex.key]++
+			nonReject[ex.route]++
 		}
 		switch ex.Verdict {
 		case c12Reject:
@@ -1057,9 +1310,10 @@ func runC12(r *simcore.Run) {
 	// every dial must be on behalf of something the reference does not refuse
 	for _, dl := range st.dials {
 		justified, culprit := false, (*c12Expect)(nil)
+		ri, known := keyRoute[dl.Key]
 		for _, id := range dl.Inflight {
 			ex := expect[id]
-			if ex == nil || ex.key != dl.Key {
+			if ex == nil || !known || ex.route != ri {
 				continue
 			}
 			if ex.Verdict != c12Reject {
@@ -1078,13 +1332,20 @@ func runC12(r *simcore.Run) {
 	}
 	for i := range sc.Routes {
 		rt := &sc.Routes[i]
-		s := e.net.StatsFor(rt.Key)
-		r.Tracef("upstream %s dials=%d accepted=%d bytes_in=%d non_rejected=%d", rt.Key, s.Dials, s.Accepted, s.BytesIn, nonReject[rt.Key])
-		if nonReject[rt.Key] == 0 && (s.Dials > 0 || s.BytesIn > 0) {
-			r.Fail("upstream-contacted", rt.Proto+"/all-refused", "everything sent to route %s must be refused, yet its upstream %s saw %d connection attempts and %d bytes", rt.Src, rt.Key, s.Dials, s.BytesIn)
+		// the instances of the service together are "the upstream" of the route
+		var s simnet.AddrStats
+		for _, k := range sc.keys(i) {
+			ks := e.net.StatsFor(k)
+			r.Tracef("upstream %s dials=%d accepted=%d bytes_in=%d", k, ks.Dials, ks.Accepted, ks.BytesIn)
+			s.Dials, s.Accepted, s.BytesIn = s.Dials+ks.Dials, s.Accepted+ks.Accepted, s.BytesIn+ks.BytesIn
 		}
-		if rt.Proto != "http" && s.Dials > nonReject[rt.Key] {
-			r.Fail("upstream-contacted", rt.Proto+"/more-dials-than-admitted", "route %s: %d connection attempts to %s, only %d client connections are not refused by the reference", rt.Src, s.Dials, rt.Key, nonReject[rt.Key])
+		ups := strings.Join(sc.keys(i), ", ")
+		r.Tracef("route %s non_rejected=%d", rt.Src, nonReject[i])
+		if nonReject[i] == 0 && (s.Dials > 0 || s.BytesIn > 0) {
+			r.Fail("upstream-contacted", rt.Proto+"/all-refused", "everything sent to route %s must be refused, yet its upstream %s saw %d connection attempts and %d bytes", rt.Src, ups, s.Dials, s.BytesIn)
+		}
+		if rt.Proto != "http" && s.Dials > nonReject[i] {
+			r.Fail("upstream-contacted", rt.Proto+"/more-dials-than-admitted", "route %s: %d connection attempts to %s, only %d client connections are not refused by the reference", rt.Src, s.Dials, ups, nonReject[i])
 		}
 		if rt.ref.malformed {
 			r.Probe("unparsable_rule_set")
@@ -1154,6 +1415,15 @@ func c12TCPClient(e *h2Env, st *c12State, sc *c12Scenario, cn *c12Conn) {
 	}()
 }
 
+func c12Has(list []string, v string) bool {
+	for _, x := range list {
+		if x == v {
+			return true
+		}
+	}
+	return false
+}
+
 func c12AuthzOf(rq *h2Req) string {
 	for _, h := range rq.Headers {
 		if strings.EqualFold(h.K, "Authorization") {
@@ -1203,7 +1473,7 @@ func c12CheckHTTP(r *simcore.Run, e *h2Env, sc *c12Scenario, cl *h2Client, rq *h
 	case c12Admit:
 		if refused {
 			r.Fail("http-over-denied", fmt.Sprint(res.Status), "%s: rules and credentials admit it, the client got %d", what, res.Status)
-		} else if len(seen) != 1 || seen[0].Upstream != rt.Key || res.Err != nil || res.Status != rq.Resp.Status {
+		} else if len(seen) != 1 || !c12Has(sc.keys(rq.Route), seen[0].Upstream) || res.Err != nil || res.Status != rq.Resp.Status {
 			r.Fail("http-admitted-not-served", "exchange", "%s: admitted, but upstream saw it %d times and the client got status=%d err=%v (upstream answers %d)", what, len(seen), res.Status, res.Err, rq.Resp.Status)
 		}
 	default:
@@ -1225,15 +1495,18 @@ func c12CheckTCP(r *simcore.Run, st *c12State, sc *c12Scenario, cn *c12Conn, exp
 		return
 	}
 	what := fmt.Sprintf("tcp client %s from %s via %s route %s allow=%q deny=%q", cn.ID, cn.Addr, rt.Proto, rt.Src, rt.Allow, rt.Deny)
-	greeting := "UP " + rt.Key + "\n"
+	greeted := false // by an instance of the route's service
+	for _, k := range sc.keys(cn.Route) {
+		greeted = greeted || res.Got == "UP "+k+"\n"
+	}
 	if res.Got == "" {
 		r.Probe("tcp_closed_ref_" + ex.Verdict)
 	} else {
 		r.Probe("tcp_connected_ref_" + ex.Verdict)
 	}
 	switch {
-	case res.Got != "" && res.Got != greeting:
-		r.Fail("tcp-wrong-upstream", rt.Proto, "%s: received %q, its route points to %s", what, res.Got, rt.Key)
+	case res.Got != "" && !greeted:
+		r.Fail("tcp-wrong-upstream", rt.Proto, "%s: received %q, its route points to %v", what, res.Got, sc.keys(cn.Route))
 	case ex.Verdict == c12Reject && res.Got != "":
 		r.Fail("tcp-admitted", rt.Proto+"/"+ex.Why, "%s: the reference refuses it (%s) but it was connected to the upstream (received %q)", what, ex.Why, res.Got)
 	case ex.Verdict == c12Admit && res.Got == "":
